@@ -491,6 +491,23 @@ func c12Gen(t *rapid.T) c12Case {
 		// the edit clears the case that goes
 		source = dm.Subsample(t, root, dm.GenTree(t, root, to), 60, 50, to)
 	}
+	if rapid.IntRange(0, 2).Draw(t, "list-when") == 0 {
+		// a list states a when that hides one of the entries the target holds (the edit skips entries it cannot see)
+		var cands []*dm.Node
+		for _, n := range m.Top {
+			if rows, _ := target[n.Name].([]interface{}); n.Kind == "list" && len(n.Keys) > 0 && len(rows) > 0 && n.When == "" {
+				cands = append(cands, n)
+			}
+		}
+		if len(cands) > 0 {
+			l := cands[rapid.IntRange(0, len(cands)-1).Draw(t, "when-list")]
+			rows := target[l.Name].([]interface{})
+			hidden := rows[rapid.IntRange(0, len(rows)-1).Draw(t, "hidden-row")].(dm.Tree)
+			if kv, isStr := hidden[l.Keys[0]].(string); isStr && !strings.ContainsAny(kv, "'\"\\") {
+				l.When = l.Keys[0] + " != '" + kv + "'"
+			}
+		}
+	}
 	c := c12Case{Module: m, Target: target, Op: rapid.SampledFrom([]string{"upsert", "upsert", "insert", "update", "delete", "replace"}).Draw(t, "op")}
 	paths := dm.AllPaths(root, target, nil)
 	if len(paths) > 0 && (c.Op == "delete" || c.Op == "replace" || rapid.Bool().Draw(t, "nonroot")) {
